@@ -369,6 +369,14 @@ def get_struct_caster(from_type, to_type, options):
     return do_cast_to_struct
 
 
+def cast_non_null_to_string(value, from_type, options):
+    # cast_to_string renders a null as the text "null" (used for display),
+    # whereas casting a null value to string yields a null
+    if value is None:
+        return None
+    return cast_to_string(value, from_type, options)
+
+
 def cast_to_user_defined_type(value, from_type, options):
     raise NotImplementedError("Pysparkling does not support yet cast to UDF")
 
@@ -410,6 +418,8 @@ def get_caster(from_type, to_type, options):
     if to_type_class in DESTINATION_DEPENDENT_CASTERS:
         caster = DESTINATION_DEPENDENT_CASTERS[to_type_class]
         return partial(caster, from_type=from_type, to_type=to_type, options=options)
+    if to_type_class == StringType:
+        return partial(cast_non_null_to_string, from_type=from_type, options=options)
     if to_type_class in CASTERS:
         return partial(CASTERS[to_type_class], from_type=from_type, options=options)
     raise AnalysisException(f"Cannot cast from {from_type} to {to_type}")
